@@ -29,8 +29,8 @@ func init() {
 		{ID: "E8.logout.redirect.writers", Fn: "op.ValidateEndSessionRequest", P: P, Kind: "store", Pat: "store($session.RedirectURI, _)", Max: 2},
 		{ID: "E8.logout.default", Fn: "op.ValidateEndSessionRequest", P: P, Kind: "store", Pat: "store($session, &EndSessionRequest{RedirectURI: $ender.DefaultLogoutRedirectURI()})", Max: 1},
 		// registration predicate
-		{ID: "E1.logout.registered.accept", Fn: "op.ValidateEndSessionPostLogoutRedirectURI", P: []string{"uri", "client"}, Kind: "ret ok", Min: 2, Max: 2,
-			Req: []string{"(inloop($reg, $client.PostLogoutRedirectURIs()) && eq($reg, $uri)) || (is($client, HasRedirectGlobs) && inloop($g, _.PostLogoutRedirectURIGlobs()) && def($m, path.Match($g, $uri), 0) && ok(path.Match($g, $uri)) && true($m))"}},
+		{ID: "E1.logout.registered.accept", Fn: "op.ValidateEndSessionPostLogoutRedirectURI", P: []string{"uri", "client"}, Kind: "ret ok",
+			Req: []string{"member($uri, $client.PostLogoutRedirectURIs()) || (is($client, HasRedirectGlobs) && some(_.PostLogoutRedirectURIGlobs(), true(res(0, path.Match(ELEM, $uri)))))"}},
 		// the hint verifier: expired class only from the three time checks
 		{ID: "E1.hint.expired-class", Fn: "op.VerifyIDTokenHint", P: []string{"ctx", "token", "v", "claims", "err"}, Kind: "ret fail", Pat: "ret($claims, IDTokenHintExpiredError{})", Min: 3, Max: 3,
 			Why: "an 'expired' hint error (which callers may accept) is produced only by the time checks, after issuer/signature/acr passed (C02)",
